@@ -92,6 +92,9 @@ def body_parser_limits(I, X, framing="CRLF", shape=("field",), n=2, buffer_size=
         if M is not None:
             for fl in nfields:
                 ok = pand(ok, fl <= M)
+            # ... and the decoder never held more than M undelimited bytes: the first read
+            # alone puts min(buffer_size, total) bytes into its buffer
+            ok = pand(ok, min(buffer_size, total) <= M)
         if P is not None:
             ok = pand(ok, len(shape) <= P)
     else:
